@@ -49,6 +49,9 @@ def build(cx, angles, voltages, rows, T, names, start=START, period=5, sym_coeff
         net.register_evse(A.EVSE(ids[j], max_rate=100), voltages[j], angles[j])
     coeffs = []
     for i, row in enumerate(rows):
+        if i == 1:
+            # the network has a history: a constraint that was added here and is removed again below
+            net.add_constraint(A.Current({ids[0]: 1}), 7, name="Temporary")
         c = {}
         for j, v in enumerate(row):
             if v is None:
@@ -56,6 +59,8 @@ def build(cx, angles, voltages, rows, T, names, start=START, period=5, sym_coeff
             c[ids[j]] = cx.real("a%d_%d" % (i, j), lo=-2, hi=2) if (sym_coeff and v == "s") else v
         coeffs.append(c)
         net.add_constraint(A.Current(c), 100, name=names[i])
+    if len(rows) > 1:
+        net.remove_constraint("Temporary")
     sim = A.Simulator(net, _Alg(), A.EventQueue(), start, period=period, verbose=False)
     R = [[cx.real("r%d_%d" % (j, t), lo=0, hi=100) for t in range(T)] for j in range(n)]
     M = np.empty((n, T), dtype=object if cx.mode == "sym" else float)
